@@ -101,6 +101,7 @@ type Exec struct {
 	tainted map[types.Object]bool // slice variables that may share their backing array with a caller's slice
 	aliasN  int
 	keepVar map[types.Object]bool // function-level locals mentioned in ensures clauses: kept across merges
+	customEncSeen map[string]bool // custom encoding methods already reported for this function
 	armedVar map[types.Object]bool // ghost flags of defer statements: false on a path that did not set them
 	calledObj map[string]types.Object   // callee name -> ghost "has been called" flag
 	lockObj   map[string]types.Object   // text of a mutex expression the function locks -> ghost depth counter (Lock +1, Unlock -1)
